@@ -76,8 +76,8 @@ def runOp (st : St) (p : List String) : St × String :=
         ({ st with rpq := { st.rpq with tasks := (st.rpq.tasks.filter (·.1 != tid)) ++ [(tid, first)] },
                    scripts := (st.scripts.filter (·.1 != tid)) ++ [(tid, (restOps, []))] }, "ok")
       | [] => (st, "bad-op")
-    | "wgwait", _ => ({ st with wgTask := some tid, wg := { st.wg with pc := 0, registered := false, notified := false } }, "ok")
-    | "lbwait", _ => ({ st with lbTask := some tid, lb := { st.lb with pc := 0, registered := false, notified := false } }, "ok")
+    | "wgwait", _ => ({ st with lbTask := (if st.lbTask == some tid then none else st.lbTask), wgTask := some tid, wg := { st.wg with pc := 0, registered := false, notified := false } }, "ok")
+    | "lbwait", _ => ({ st with wgTask := (if st.wgTask == some tid then none else st.wgTask), lbTask := some tid, lb := { st.lb with pc := 0, registered := false, notified := false } }, "ok")
     | _, _ => (st, "bad-op")
   | ["step", tid] =>
     if st.wgTask == some tid then
